@@ -167,7 +167,7 @@ def run(pid, tier, seed, replay_path=None):
                     else:
                         inconclusive.append(f"inductive check T={T}: unknown")
                     if not spurious and not violations:
-                        J = {("quick", 2): 5, ("quick", 3): 3, ("thorough", 2): 6, ("thorough", 3): 5}[(tier, T)]
+                        J = {("quick", 2): 5, ("quick", 3): 4, ("thorough", 2): 6, ("thorough", 3): 5}[(tier, T)]
                         rd, stt = checks.deep_search(proto, J, K, 1500000)
                         log(f"[C05] two-phase search T={T} J={J}: {'violation' if rd else 'none'} ({stt['time']:.0f}s, {stt['candidates']} candidates)")
                         if rd is None and stt["candidates"] == 0:
